@@ -4,7 +4,26 @@
  * std::tuple / std::array model kept here. Heap-backed kinds are run with --memory-leak-check. */
 #define NMV_HOOK_CAPACITY_ALLOWED      /* refusals at capacity are expected events; their effect (contents unchanged) is asserted */
 #include "harness.h"
+#ifdef POOL        /* kernels built with the counting slot allocator behind nmtools_malloc / nmtools_free (see kernels/C19_containers.cpp) */
+#include "C19_containers_pool.h"
+#define KS2(n) n##_pool
+#define KS(n) KS2(n)
+#define PWORDS 12
+static void pool_begin(void){ u32 junk[PWORDS]; for (int i = 0; i < PWORDS; i++) junk[i] = in_any32(); k_pool_reset_pool(junk); }   /* fresh blocks hold arbitrary values, like malloc */
+static void pool_end(void){
+  u32 live = 99, used = 99; u32 err = k_pool_report_pool(&live, &used); OBS(err); OBS(live);
+  ASSERT((err & 1) == 0, "allocator model large enough for this history (bound check, not a property of nmtools)");
+  ASSERT((err & 2) == 0, "no block is freed twice");
+  ASSERT((err & 4) == 0, "only allocated blocks are freed");
+  ASSERT((err & 8) == 0, "no write beyond the requested size of a block");
+  ASSERT(live == 0, "every allocated block has been freed when all objects are destroyed (no leak)");
+}
+#else
 #include "C19_containers.h"
+#define KS(n) n
+#define pool_begin() ((void)0)
+#define pool_end() ((void)0)
+#endif
 #ifndef K
 #define K 3
 #endif
@@ -16,19 +35,19 @@
 #endif
 /* KIND 0 utl::vector<int>   1 utl::static_vector<int,4>   2 small_vector<int,3> (std::variant, std::vector)   3 small_vector<int,3> (utl::either, utl::vector) */
 #if KIND == 0
-#define KHIST k_hist_vector
+#define KHIST KS(k_hist_vector)
 #define BOUNDED 0
 #define CAPS 4
 #elif KIND == 1
-#define KHIST k_hist_static_vector
+#define KHIST KS(k_hist_static_vector)
 #define BOUNDED 1
 #define CAPS 4
 #elif KIND == 2
-#define KHIST k_hist_small_vector_stl
+#define KHIST KS(k_hist_small_vector_stl)
 #define BOUNDED 0
 #define CAPS 3
 #else
-#define KHIST k_hist_small_vector_utl
+#define KHIST KS(k_hist_small_vector_utl)
 #define BOUNDED 0
 #define CAPS 3
 #endif
@@ -46,10 +65,30 @@ static void m_resize(mv_t* m, u64 n){           /* std::vector::resize: new elem
 static void m_push(mv_t* m, u32 v){ if (BOUNDED && m->n + 1 > CAPS) return; if (m->n < OUTCAP) m->d[m->n] = v; m->n++; }
 static void m_assign(mv_t* m, const mv_t* o){ mv_t c = *o; *m = c; }
 
+/* concrete prefixes PRE0 / PRE1 (per-query constants, see the kernel): the objects start the symbolic steps in a chosen reachable state */
+#ifndef PRE0
+#define PRE0 0
+#endif
+#ifndef PRE1
+#define PRE1 0
+#endif
+static void m_prefix(mv_t* m, int code, const u32* pv){
+  switch (code){
+    case 1: m_push(m, pv[0]); m_push(m, pv[1]); break;
+    case 2: for (int i = 0; i < 4; i++) m_push(m, pv[i]); break;
+    case 3: for (int i = 0; i < 5; i++) m_push(m, pv[i]); break;
+    case 4: m_resize(m, 6); break;
+    case 5: m_resize(m, 6); m_resize(m, 1); break;
+    case 6: for (int i = 0; i < 3; i++) m_push(m, pv[i]); m_resize(m, 0); break;
+    default: break;
+  }
+}
 void h_hist(void){
-  u8 ops[K], tgt[K]; u64 n[K]; u32 v[K];
+  u8 ops[K], tgt[K]; u64 n[K]; u32 v[K], pv0[5], pv1[5];
   mv_t m[2]; m[0].n = 0; m[1].n = 0;
   for (int i = 0; i < OUTCAP; i++){ m[0].d[i] = 0; m[1].d[i] = 0; }
+  for (int i = 0; i < 5; i++){ pv0[i] = in_any32(); pv1[i] = in_any32(); }
+  m_prefix(&m[0], PRE0, pv0); m_prefix(&m[1], PRE1, pv1);
   for (int s = 0; s < K; s++){
     ops[s] = in_u8(0, NOPS - 1); tgt[s] = in_u8(0, 1); n[s] = in_u64(0, RMAX); v[s] = in_any32();
     mv_t* me = &m[tgt[s]]; mv_t* other = &m[tgt[s] ^ 1];
@@ -70,7 +109,9 @@ void h_hist(void){
   }
   u32 o0[OUTCAP], o1[OUTCAP]; u64 n0 = 99, n1 = 99;
   for (int i = 0; i < OUTCAP; i++){ o0[i] = 0xdeadbeef; o1[i] = 0xdeadbeef; }
-  KHIST(ops, tgt, n, v, K, o0, &n0, o1, &n1, OUTCAP);
+  pool_begin();
+  KHIST(PRE0, PRE1, pv0, pv1, ops, tgt, n, v, K, o0, &n0, o1, &n1, OUTCAP);
+  pool_end();
   OBS(n0); OBS(n1);
   ASSERT(n0 == m[0].n && n1 == m[1].n, "size() of both objects equals the std::vector model");
   for (u64 i = 0; i < OUTCAP; i++){
@@ -87,12 +128,14 @@ void h_ctor(void){
 #ifdef KF_C19_VECTOR_SIZED_CTOR_UNINIT
   ASSUME(n == 0);      /* vector(N) exposes N uninitialised cells */
 #endif
-  u64 r = k_vector_sized(n, out, OUTCAP); OBS(r);
+  pool_begin();
+  u64 r = KS(k_vector_sized)(n, out, OUTCAP); OBS(r);
   ASSERT(r == n, "vector(N).size() == N");
   for (u64 i = 0; i < OUTCAP; i++) if (i < n){ ASSERT(out[i] == 0, "vector(N): elements are value-initialised like std::vector(N)"); }
   u32 a = in_any32(), b = in_any32(), c = in_any32();
-  r = k_vector_variadic(a, b, c, out, OUTCAP); OBS(r);
+  r = KS(k_vector_variadic)(a, b, c, out, OUTCAP); OBS(r);
   ASSERT(r == 3 && out[0] == a && out[1] == b && out[2] == c, "vector(a,b,c) holds a,b,c");
+  pool_end();
   REACHED();
 }
 void h_ctor_static(void){
@@ -101,7 +144,7 @@ void h_ctor_static(void){
 #ifdef KF_C19_STATIC_SIZED_CTOR_OVER_CAPACITY
   ASSUME(n <= 4);
 #endif
-  u64 r = k_static_vector_sized(n, out, OUTCAP); OBS(r);
+  u64 r = KS(k_static_vector_sized)(n, out, OUTCAP); OBS(r);
   ASSERT(r <= 4, "static_vector<int,4>(N).size() never exceeds the capacity");
   ASSERT(n > 4 || r == n, "static_vector(N).size() == N within capacity");
   for (u64 i = 0; i < OUTCAP; i++) if (i < r && i < 4){ ASSERT(out[i] == 0, "static_vector(N): elements are value-initialised"); }
@@ -112,7 +155,9 @@ void h_copy_independent(void){
   for (int i = 0; i < 8; i++) src[i] = in_any32();
   ASSUME(wi < n);
   for (int i = 0; i < OUTCAP; i++){ oc[i] = 0xdeadbeef; os[i] = 0xdeadbeef; }
-  u64 r = k_vector_copy(src, n, wi, wv, oc, os, OUTCAP); OBS(r);
+  pool_begin();
+  u64 r = KS(k_vector_copy)(src, n, wi, wv, oc, os, OUTCAP); OBS(r);
+  pool_end();
   ASSERT(r == n, "copy has the size of its source");
   for (u64 i = 0; i < 8; i++) if (i < n){ ASSERT(oc[i] == src[i], "copy is independent of later writes to its source"); ASSERT(os[i] == (i == wi ? wv : src[i]), "source after the write"); }
   REACHED();
@@ -239,7 +284,9 @@ void h_either_heap(void){
       default: break;
     }
   }
-  k_hist_either_heap(ops, tgt, v, K, idx, val, len);
+  pool_begin();
+  KS(k_hist_either_heap)(ops, tgt, v, K, idx, val, len);
+  pool_end();
   for (int t = 0; t < 2; t++){
     OBS(idx[t]); OBS(val[t]); OBS(len[t]);
     ASSERT(idx[t] == (u32)mi[t], "active alternative");
@@ -262,7 +309,9 @@ void h_maybe_heap(void){
       default: break;
     }
   }
-  k_hist_maybe_heap(ops, tgt, v, K, has, val, len);
+  pool_begin();
+  KS(k_hist_maybe_heap)(ops, tgt, v, K, has, val, len);
+  pool_end();
   for (int t = 0; t < 2; t++){
     OBS(has[t]); ASSERT(has[t] == (u32)mh[t], "has_value()");
     if (mh[t]){ OBS(val[t]); ASSERT(val[t] == mvv[t] && len[t] == 2, "stored vector"); }
